@@ -539,3 +539,88 @@ Proof.
     unfold Qdiv. apply Qmult_comp; [unfold d; ring|]. reflexivity.
 Qed.
 End Affine.
+
+(* ---------- paired test: swap and affine maps act on the differences ---------- *)
+Lemma Qsum_ext l l' : Forall2 Qeq l l' -> Qsum l == Qsum l'.
+Proof. induction 1 as [|x y l l' H _ IH]; cbn [Qsum]; [reflexivity | now rewrite H, IH]. Qed.
+Lemma sumsq_ext l l' : Forall2 Qeq l l' -> sumsq l == sumsq l'.
+Proof. unfold sumsq. induction 1 as [|x y l l' H _ IH]; cbn [map Qsum]; [reflexivity | now rewrite H, IH]. Qed.
+Lemma Forall2_len {A B} (R : A -> B -> Prop) l l' : Forall2 R l l' -> length l = length l'.
+Proof. induction 1; cbn; auto. Qed.
+Lemma mean_def_ext l l' : Forall2 Qeq l l' -> mean_def l == mean_def l'.
+Proof. intros H. unfold mean_def, lenQ. now rewrite (Qsum_ext _ _ H), (Forall2_len _ _ _ H). Qed.
+Lemma var_def_ext l l' : Forall2 Qeq l l' -> var_def l == var_def l'.
+Proof.
+  intros H. unfold var_def. rewrite !ssd_expand, (mean_def_ext _ _ H), (Qsum_ext _ _ H), (sumsq_ext _ _ H).
+  unfold lenQ. now rewrite (Forall2_len _ _ _ H).
+Qed.
+Lemma w_mean_ext l l' : l <> [] -> Forall2 Qeq l l' -> w_mean l == w_mean l'.
+Proof.
+  intros N H. rewrite !w_mean_eq; auto; [now apply mean_def_ext|]. inversion H; subst; [congruence | discriminate].
+Qed.
+Lemma w_variance_ext l l' : Forall2 Qeq l l' -> w_variance l == w_variance l'.
+Proof.
+  intros H. pose proof (Forall2_len _ _ _ H) as L. destruct (Nat.le_gt_cases (length l) 1) as [C|C].
+  - unfold w_variance. rewrite <- L. apply Nat.leb_le in C. rewrite C. reflexivity.
+  - rewrite !w_variance_eq by lia. now apply var_def_ext.
+Qed.
+Lemma vdiff_affine a b x1 : forall x2,
+  Forall2 Qeq (vdiff (map (fun x => a * x + b) x1) (map (fun x => a * x + b) x2)) (map (fun d => a * d + 0) (vdiff x1 x2)).
+Proof. induction x1 as [|x t IH]; intros [|y u]; cbn [map vdiff]; constructor; [ring | apply IH]. Qed.
+Lemma vdiff_swap x1 : forall x2, Forall2 Qeq (vdiff x2 x1) (map (fun d => (-1) * d + 0) (vdiff x1 x2)).
+Proof. induction x1 as [|x t IH]; intros [|y u]; cbn [map vdiff]; constructor; [ring | apply IH]. Qed.
+Lemma vdiff_length_min a : forall b, length (vdiff a b) = Nat.min (length a) (length b).
+Proof. induction a as [|x a IH]; intros [|y b]; cbn; auto. Qed.
+
+(* a list that is pointwise c*d (+0) of the differences: mean scales by c, variance by c^2 *)
+Lemma scaled_diff c d d' : d <> [] -> Forall2 Qeq d' (map (fun z => c * z + 0) d) ->
+  w_mean d' == c * w_mean d /\ w_variance d' == c * c * w_variance d.
+Proof.
+  intros N H. split.
+  - assert (N' : d' <> []).
+    { intro C. subst d'. inversion H as [E|]. destruct d; [congruence | discriminate]. }
+    rewrite (w_mean_ext d' (map (fun z => c * z + 0) d) N' H). rewrite w_mean_affine by exact N. ring.
+  - rewrite (w_variance_ext _ _ H). apply w_variance_affine.
+Qed.
+
+Theorem paired_swap x1 x2 mu0 : tout_rel tres_swapped (paired x1 x2 mu0) (paired x2 x1 (- mu0)).
+Proof.
+  unfold paired. rewrite (Nat.eqb_sym (length x2)).
+  destruct (length x1 =? length x2)%nat eqn:E0; cbn [negb]; [|reflexivity].
+  apply Nat.eqb_eq in E0. rewrite <- E0. destruct (length x1 <=? 1)%nat eqn:E1; [reflexivity|].
+  apply Nat.leb_gt in E1.
+  assert (N : vdiff x1 x2 <> []).
+  { intro C. apply (f_equal (@length Q)) in C. rewrite vdiff_length_min, <- E0, Nat.min_id in C. cbn in C. lia. }
+  destruct (scaled_diff (-1) (vdiff x1 x2) (vdiff x2 x1) N (vdiff_swap x1 x2)) as [M V].
+  assert (Hm1 : ~ -1 == 0) by (intro C; discriminate C).
+  rewrite (is_zero_scale (-1) _ _ Hm1 V).
+  destruct (is_zero (w_variance (vdiff x1 x2))); [reflexivity|].
+  cbn [tout_rel]. unfold tres_swapped. cbn [t_n1 t_n2 t_sign t_sq t_dof].
+  assert (EL : lenQ x2 = lenQ x1) by (unfold lenQ; now rewrite E0).
+  repeat split.
+  - rewrite <- Qsign_opp. apply Qsign_ext. rewrite M. ring.
+  - rewrite !Qred_correct, M, V, EL. unfold Qdiv. apply Qmult_comp; [ring|]. apply Qinv_comp. ring.
+  - rewrite !Qred_correct, EL. reflexivity.
+Qed.
+
+Theorem paired_affine a b x1 x2 mu0 : 0 < a ->
+  tout_rel tres_same (paired x1 x2 mu0)
+                     (paired (map (fun x => a * x + b) x1) (map (fun x => a * x + b) x2) (a * mu0)).
+Proof.
+  intros Ha. unfold paired. rewrite !map_length.
+  destruct (length x1 =? length x2)%nat eqn:E0; cbn [negb]; [|reflexivity].
+  apply Nat.eqb_eq in E0. destruct (length x1 <=? 1)%nat eqn:E1; [reflexivity|]. apply Nat.leb_gt in E1.
+  assert (N : vdiff x1 x2 <> []).
+  { intro C. apply (f_equal (@length Q)) in C. rewrite vdiff_length_min, <- E0, Nat.min_id in C. cbn in C. lia. }
+  destruct (scaled_diff a (vdiff x1 x2) _ N (vdiff_affine a b x1 x2)) as [M V].
+  assert (Hane : ~ a == 0) by lra.
+  assert (Haa : ~ a * a == 0) by (intro C; apply Qmult_integral in C; destruct C; contradiction).
+  rewrite (is_zero_scale a _ _ Hane V).
+  destruct (is_zero (w_variance (vdiff x1 x2))); [reflexivity|].
+  cbn [tout_rel]. unfold tres_same. cbn [t_n1 t_n2 t_sign t_sq t_dof]. rewrite !zlen_map, !lenQ_map.
+  set (d := w_mean (vdiff x1 x2) - mu0). repeat split.
+  - rewrite <- (Qsign_scale a d Ha). apply Qsign_ext. rewrite M. unfold d. ring.
+  - rewrite !Qred_correct, M, V.
+    rewrite <- (Qdiv_scale (a * a) (d * d * lenQ x1) (w_variance (vdiff x1 x2)) Haa).
+    unfold Qdiv. apply Qmult_comp; [unfold d; ring|]. reflexivity.
+Qed.
